@@ -290,7 +290,9 @@ def register(S):
         rty = ctx.ret_ty()
         if rty and rty.get("k") == "bool":
             if ctx.ip.opts.get("explore_logs"):
-                return ctx.ret(IntVal.top(BOOL))
+                # logging enabled: every enabled-check answers yes (is_never() style negated checks answer no)
+                neg = ctx.path.endswith("is_never") or ctx.path.endswith("is_none") or ctx.path.endswith("is_disabled")
+                return ctx.ret(IntVal.const(BOOL, 0 if neg else 1))
             return ctx.ret(IntVal.const(BOOL, 0))
         return ctx.ret(ctx.top_ret())
 
